@@ -756,6 +756,41 @@ fn lets_cases(r: &mut Rng, n: usize) -> Vec<Case> {
             out.push(c);
         }
     }
+    // multi-index access with each index position in turn out of range (by one, by many, negative, fractional, Boolean) on a
+    // matrix, a jagged array, a 3-level array and a mixed-row matrix: `IterableKind::read` against `readV` - deterministic
+    {
+        let ints = |xs: &[i64]| LV::Arr(xs.iter().map(|x| LV::I(*x)).collect());
+        let data: Vec<(String, LE)> = vec![
+            ("M".into(), LE::Lit(LV::Arr(vec![ints(&[1, 2]), ints(&[3, 4])]))),
+            ("J".into(), LE::Lit(LV::Arr(vec![ints(&[1]), ints(&[2, 3]), ints(&[4, 5, 6])]))),
+            ("T".into(), LE::Lit(LV::Arr(vec![LV::Arr(vec![ints(&[1, 2]), ints(&[3])]), LV::Arr(vec![ints(&[4])])]))),
+            ("X".into(), LE::Lit(LV::Arr(vec![ints(&[1, 2]), LV::Arr(vec![LV::S("a".into()), LV::S("b".into())])]))),
+            ("V".into(), LE::Lit(ints(&[7, 8, 9]))),
+        ];
+        let mut accs: Vec<(String, Vec<LE>)> = vec![];
+        for (name, dims) in [("M", vec![2i64, 2]), ("J", vec![3, 1]), ("T", vec![2, 2, 2]), ("X", vec![2, 2])] {
+            for pos in 0..dims.len() {
+                for bad in 0..5 {
+                    let ix: Vec<LE> = (0..dims.len()).map(|p| if p == pos { match bad { 0 => LE::Lit(LV::I(dims[p])), 1 => LE::Lit(LV::I(7)), 2 => LE::Bin("sub", Box::new(LE::Lit(LV::I(0))), Box::new(LE::Lit(LV::I(1)))), 3 => LE::Lit(LV::F(0.5)), _ => LE::Lit(LV::B(true)) } } else { LE::Lit(LV::I(0)) }).collect();
+                    accs.push((name.to_string(), ix));
+                }
+            }
+        }
+        let i = |n: i64| LE::Lit(LV::I(n));
+        for (n, ix) in [("J", vec![i(2), i(3)]), ("J", vec![i(2), i(2)]), ("J", vec![i(0), i(1)]), ("T", vec![i(1), i(1), i(0)]), ("T", vec![i(0), i(1), i(1)]), ("T", vec![i(1), i(0), i(0)]), ("T", vec![i(0), i(2), i(0)]),
+            ("M", vec![i(2), i(2)]), ("V", vec![i(0), i(0)]), ("V", vec![i(3), i(0)]), ("M", vec![i(0), i(0), i(0)]), ("T", vec![i(0), i(0), i(0), i(0)]), ("M", vec![i(1), i(1)]), ("X", vec![i(1), i(1)]), ("X", vec![i(0), i(1)]),
+            ("M", vec![LE::Call("len".into(), vec![LE::Var("V".into())]), i(0)]), ("T", vec![i(1)]), ("T", vec![i(1), i(0)])] {
+            accs.push((n.to_string(), ix));
+        }
+        for (k, (n, ix)) in accs.into_iter().enumerate() {
+            let mut lets = data.clone();
+            lets.push(("k".to_string(), LE::Acc(n, ix)));
+            let mut c = lets_case(&lets);
+            c.tags.push("lets:multi-index-access".into());
+            c.tags.push(format!("lets:multi-index-access:{}", k));
+            out.push(c);
+        }
+    }
     // which names a constant may take (`check_if_reserved_token`)
     for name in ["min", "max", "where", "in", "for", "as", "if", "else", "solve", "true", "false", "Graph", "avg", "abs", "all", "any", "xor", "sum", "prod", "edges", "E", "len", "nodes", "V",
         "neigh_edges", "N", "neigh_edges_of", "N_of", "enumerate", "enum", "range", "zip", "difference", "union", "intersection", "lenn", "Min", "graph", "sumx", "PI", "Infinity", "e", "n_of", "Sum", "ranges"] {
